@@ -17,7 +17,7 @@ pub fn def() -> PropDef {
         rule: "programs: all enums reachable from the 3-variant base by <=k deviations (per variant: kind x4, serialize/second serialize/to_string \
                from a collision-forcing literal pool, disabled, default (tuple/named), default_with (tuple/named fields), ascii_case_insensitive x3, \
                attribute layout split/reversed; enum: serialize_all, ascii_case_insensitive, <T: Default>, <const N>, <'a>, N-1, N+1) whose spellings do not \
-               overlap; plus the empty enum. inputs: Trie(L) over a per-program alphabet + all case flips, one-edit neighbours, paddings and Unicode \
+               overlap (programs with overlapping spellings are kept at k <= 2 but explored on unambiguous inputs only); plus the empty enum. inputs: Trie(L) over a per-program alphabet + all case flips, one-edit neighbours, paddings and Unicode \
                look-alikes of every spelling (disabled/default variants included) + identifiers raw and re-cased + \"\". oracle: from_str and try_from \
                both equal R-parse (variant index and Debug text of the value, or the error). non-trivial = accepted input, or rejected input that equals a \
                spelling after Unicode lower-casing; distinct per (program, input)",
@@ -83,13 +83,15 @@ pub fn programs(tier: Tier) -> ProgramSet {
     let mut push = |e: crate::devs::Enumerated, out: &mut Vec<Program>| {
         if seen.insert(e.spec.clone()) {
             let source = render_parse_module(&e.spec, &derives, call);
-            out.push(Program { idx: 0, label: e.label, k: e.k, spec: e.spec, aux: json!(null), source });
+            let aux = overlap_aux(&e.spec);
+            out.push(Program { idx: 0, label: e.label, k: e.k, spec: e.spec, aux, source });
         }
     };
     // the empty enum
     push(crate::devs::Enumerated { spec: EnumSpec::base(0), label: "B0".into(), k: 0 }, &mut out);
     let base = EnumSpec::base(3);
-    let (specs, ex) = enumerate(&base, "B3", &alphabet(3, &cfg(tier, false)), 2, &parse_domain);
+    // overlapping programs are admitted in the k <= 2 level and explored on unambiguous inputs only
+    let (specs, ex) = enumerate(&base, "B3", &alphabet(3, &cfg(tier, false)), 2, &parse_domain_overlap_ok);
     excluded += ex as u64;
     for e in specs {
         push(e, &mut out);
